@@ -1,6 +1,7 @@
 // E-ION: whole TaskBasedIonizationSimulation runs under the simulator.
 // Serves C01 (packet ledger), C03 (reference model + hand-over invariants),
 // selected by VERIF_PROPERTY (default C01).
+#include "hdf5_compare.hpp"
 #include "ion_model.hpp"
 
 #include "TaskBasedIonizationSimulation.hpp"
@@ -721,6 +722,38 @@ public:
           if (kv.second[k] != it->second[k])
             ++diff;
         st["hdf5_bytes_differing_with_other_clock"] = (long long)diff;
+        // dataset level: everything except the creation time stamp must be
+        // identical (groups, shapes, types, raw values, attributes)
+        {
+          const std::string fa = base + "/cmp_a.hdf5", fb = base + "/cmp_b.hdf5";
+          {
+            std::ofstream oa(fa, std::ios::binary), ob(fb, std::ios::binary);
+            oa << kv.second;
+            ob << it->second;
+          }
+          h5cmp::Result hr =
+              h5cmp::compare_files(fa, fb, {"Creation time"});
+          unlink(fa.c_str());
+          unlink(fb.c_str());
+          st["hdf5_datasets_compared"] = (long long)hr.datasets;
+          st["hdf5_attributes_compared"] = (long long)hr.attributes;
+          st["hdf5_attributes_ignored"] = (long long)hr.ignored;
+          if (!hr.equal) {
+            out.vclass = cls;
+            out.message =
+                sfmt("snapshot %s of two runs that differ only in the "
+                     "simulated wall clock differs at the dataset level: %s",
+                     kv.first.c_str(), hr.what.c_str());
+            return out;
+          }
+          if (hr.ignored != 1) {
+            out.vclass = cls;
+            out.message = sfmt("snapshot %s: expected exactly one creation "
+                               "time attribute, found %ld",
+                               kv.first.c_str(), hr.ignored);
+            return out;
+          }
+        }
         if (diff > 64) {
           out.vclass = cls;
           out.message = sfmt("snapshot %s differs in %ld bytes between two "
@@ -961,7 +994,10 @@ public:
           "time, forward and backward jumps). All snapshot files must be "
           "byte-identical; for Gadget snapshots of class B pairs only the "
           "creation-time attribute and HDF5 object times may differ (at most "
-          "64 bytes, same size). distinct = distinct event-log hash";
+          "64 bytes, same size), and the two files are compared through the "
+          "HDF5 library: all groups, datasets (shape, type, raw values) and "
+          "attributes identical except the one 'Creation time' attribute. "
+          "distinct = distinct event-log hash";
     } else if (prop == "C12" && mode == "perturb") {
       cov["rule"] =
           "heap-perturbation part of C12: each evaluation = one generated "
